@@ -1,11 +1,11 @@
 import sys, time
 sys.path.insert(0, '/verif')
-from mirsym.engine import Program
+from harness.framework import load_program
 from harness.selftest import run_selftest
-prog = Program(open(sys.argv[1]).read(), sys.argv[2])
-seed = int(sys.argv[3]) if len(sys.argv) > 3 else 1
-n = int(sys.argv[4]) if len(sys.argv) > 4 else 20
-kinds = sys.argv[5].split(',') if len(sys.argv) > 5 and sys.argv[5] != '-v' else None
+prog = load_program()
+seed = int(sys.argv[1]) if len(sys.argv) > 1 else 1
+n = int(sys.argv[2]) if len(sys.argv) > 2 else 20
+kinds = sys.argv[3].split(',') if len(sys.argv) > 3 and sys.argv[3] != '-v' else None
 t = time.time()
 ns, nl, mism, incon, st, joined = run_selftest(prog, seed, n, kinds=kinds, verbose=True)
 print('scripts', ns, 'lines', nl, 'mismatches', len(mism), 'inconclusive', len(incon), 'time %.1f' % (time.time() - t))
